@@ -240,6 +240,20 @@ def sparse_ttv_result_cells_overflow_int64(case):
     return len(rem) >= 2 and cells >= 2**63
 
 
+# -- (round 4) mode numbers given in uint64 ----------------------------------------------------------------------------------
+def mode_numbers_uint64(case):
+    """C02/present: dims / exclude_dims / contracted modes typed as a uint64 array or uint64 scalars
+    (``np.arange(N, dtype=np.uint64)``): joined with an int64 array of remaining modes NumPy promotes to float64"""
+    return (case.get("pres") or {}).get("dims") == "uint64"
+
+
+# -- (round 4) tensor.ttt: one contracted mode named by a numpy integer scalar ---------------------------------------------
+def ttt_mode_as_numpy_integer_scalar(case):
+    """C02/present/ttt: selfdims (and otherdims) a single numpy integer (``for n in np.arange(N)``), not a Python int"""
+    how = (case.get("pres") or {}).get("dims") or ""
+    return bool(case.get("scalar_form")) and how not in ("tuple", "pylist", "")
+
+
 PREDICATES = {f.__name__: f for f in (
     kruskal_ttv_selected_singleton, oneway_sparse_operand, sparse_operand_with_one_nonzero,
     receiver_sparse_one_nonzero_dense_factor, receiver_sparse_empty, receiver_sparse_empty_all_modes_collapsed,
@@ -248,4 +262,5 @@ PREDICATES = {f.__name__: f for f in (
     sum_full_contraction_with_integer_part, sum_mttkrp_integer_first_part_then_float,
     unsigned_one_entry_receiver_negative_sparse_factor, both_operands_boolean, dense_boolean_through_tenmat,
     sparse_boolean_collapse_into_one_cell, sparse_uint8_collapse_sum_above_255, sparse_ttv_result_cells_overflow_int64,
+    mode_numbers_uint64, ttt_mode_as_numpy_integer_scalar,
 )}
